@@ -1235,6 +1235,34 @@ class Executor:
             if self.inline and len(st.frames) <= MAX_INLINE_DEPTH and fn not in active and not _is_generator(fn):
                 yield from self._inline(node, fn, fmod, args, kwargs, st)
                 return
+        if h == "lambda" and self.inline and len(st.frames) <= MAX_INLINE_DEPTH and ft[1] not in [f.fn for f in st.frames]:
+            lam, lmod = ft[1], ft[2]
+            sc = lmod.scopes.get(lam)
+            if sc is not None:
+                env = {}
+                pos = [x.arg for x in lam.args.posonlyargs] + [x.arg for x in lam.args.args]
+                plain = [x for x in args if x[0] != "star"]
+                if len(plain) == len(args) and len(plain) <= len(pos) and not lam.args.vararg:
+                    for k, t in enumerate(plain):
+                        env[pos[k]] = t
+                    for k, v in kwargs:
+                        if k != "**":
+                            env[k] = v
+                    defaults = dict(zip(pos[len(pos) - len(lam.args.defaults):], lam.args.defaults))
+                    okp = True
+                    for p_ in sc.params:
+                        if p_ not in env:
+                            d = defaults.get(p_)
+                            if isinstance(d, ast.Constant):
+                                env[p_] = const(d.value)
+                            else:
+                                okp = False
+                    if okp:
+                        st.frames.append(Frame(lam, lmod, env, sc.qualname))
+                        for s1, t in self.eval(lam.body, st):
+                            s1.frames.pop()
+                            yield s1, t
+                        return
         if h == "builtin":
             if ft[1] in PURE_BUILTINS:
                 if ft[1] == "len":
